@@ -80,6 +80,8 @@ type SpecOpts struct {
 	// AlgPresent: 0 = by rule (present unless external is non-empty and the
 	// tape says otherwise), 1 = always, 2 = never.
 	AlgPresent int
+	// TaggedProtected: see LayerOpts.Tagged (foreign-issued messages only).
+	TaggedProtected bool
 }
 
 func genKey(t *tape.Tape, cheap bool) *KeyPair {
@@ -109,13 +111,13 @@ func genSpec(t *tape.Tape, o SpecOpts) *MsgSpec {
 		}
 		return true
 	}
-	lo := LayerOpts{MaxExtra: o.MaxExtra, Steer: true, Big: o.BigOK}
+	lo := LayerOpts{MaxExtra: o.MaxExtra, Steer: true, Big: o.BigOK, Tagged: o.TaggedProtected}
 	if s.Kind == refcose.KSignTagged {
 		s.Layer = genLayer(t, lo) // body layer carries no alg
 		n := 1 + t.Choose(max(1, o.MaxSigner), "spec.nsig")
 		for i := 0; i < n; i++ {
 			k := genKey(t, o.Cheap || n > 2)
-			slo := LayerOpts{MaxExtra: min(o.MaxExtra, 3), Steer: t.Bool(1, 4, "spec.sig.steer")}
+			slo := LayerOpts{MaxExtra: min(o.MaxExtra, 3), Steer: t.Bool(1, 4, "spec.sig.steer"), Tagged: o.TaggedProtected}
 			if algIn() {
 				a := k.Alg
 				slo.Alg = &a
